@@ -3,7 +3,7 @@
 (* format() and re-parsing, judged against Text.tla.  Symbols: the harness      *)
 (* sends the registered symbols of its world as code sequences with their type  *)
 (* and scale (the scale table is Catalogue-independent: a small user world).    *)
-EXTENDS Text, Json, IOUtils, TLC, TLCExt
+EXTENDS Text, Affine, Json, IOUtils, TLC, TLCExt
 Tr == JsonDeserialize(IOEnv.TRACE_FILE)
 Syms == JsonDeserialize(IOEnv.SYMS_FILE)      \* [codes, name, type, scale {s,n,d} or noscale]
 VARIABLE i
@@ -67,6 +67,9 @@ Judge(ev) ==
             ELSE LET sym == SymOf(SymbolPart(s))  tgt == SymByName(ev.to) IN
                  IF sym.type # tgt.type THEN J(ev.obs.st = "err")
                  ELSE IF ev.obs.st # "ok" THEN "bad:rejected"
+                 ELSE IF sym.type = "Temperature"      \* converted through the table, offsets included
+                      THEN J(ev.obs.u = ev.to /\ ev.obs.type = tgt.type
+                             /\ QEqv(Q(ev.obs.a), TempRef(ParseAmount(AmountPart(s)).q, sym.name, tgt.name)))
                  ELSE J(ev.obs.u = ev.to /\ ev.obs.type = tgt.type
                         /\ QEqv(Q(ev.obs.a), QDiv(QMul(ParseAmount(AmountPart(s)).q, Q(sym.scale)), Q(tgt.scale))))
 Init == i = 1
